@@ -10,6 +10,7 @@ CONSTANTS
   InitAttG = {"s1", "s5"}
   InitOnMe = {}
   MeSessions = {"s4"}
+  SubSessions = {"s1", "s2", "s3"}
   LeaveSessions = {"s1", "s2"}
   DiscSessions = {}
   PubSessions = {}
